@@ -311,6 +311,14 @@ def rule_c15_r3(model: Model) -> RuleResult:
     pe, pnode = _follow(cfg, store, kws['pos_args'])
     bf, bcfg, loop_iter_ok = f, cfg, None
     if isinstance(pe, ast.Tuple) and len(pe.elts) == 2 and all(isinstance(e, ast.Name) for e in pe.elts):
+        # `(lo, hi) = _bounds_helper(fields, ...)` and `pos_args=(lo, hi)`: the pair is the helper's result
+        rd_ = cfg.reaching()
+        d0 = rd_.at(pnode, pe.elts[0].id) if rd_.is_local(pe.elts[0].id) else []      # type: ignore[attr-defined]
+        d1 = rd_.at(pnode, pe.elts[1].id) if rd_.is_local(pe.elts[1].id) else []      # type: ignore[attr-defined]
+        if len(d0) == 1 and len(d1) == 1 and isinstance(d0[0].value, ast.Call) and d0[0].value is d1[0].value \
+                and tuple(d0[0].path or ()) == (0,) and tuple(d1[0].path or ()) == (1,):
+            pe, pnode = d0[0].value, d0[0].node
+    if isinstance(pe, ast.Tuple) and len(pe.elts) == 2 and all(isinstance(e, ast.Name) for e in pe.elts):
         min_name, max_name = pe.elts[0].id, pe.elts[1].id      # type: ignore[attr-defined]
         at = pnode
     elif isinstance(pe, ast.Call):
